@@ -96,8 +96,8 @@ namespace Martian.Proxy
 
 def isRead (i : Nat) : Ev → Bool | .read j => j == i | _ => false
 
-def Item.rq : Item → ReqB | .x _ rq _ _ => rq | .connectMitm _ rq _ => rq | .connectBlind _ rq _ => rq
-def Item.rs : Item → ResB | .x _ _ rs _ => rs | .connectMitm _ _ rs => rs | .connectBlind _ _ rs => rs
+def Item.rq : Item → ReqB | .x _ rq _ _ => rq | .connectMitm _ rq _ => rq | .connectBlind _ rq _ => rq | .connectMitmFail rq _ => rq
+def Item.rs : Item → ResB | .x _ _ rs _ => rs | .connectMitm _ _ rs => rs | .connectBlind _ _ rs => rs | .connectMitmFail _ rs => rs
 def Item.hij (it : Item) : Bool := it.rq == .hijack || it.rs == .hijack
 
 /-- Brute-force evaluation of one `handleItem` call over every behaviour combination; `tac`
@@ -115,6 +115,10 @@ macro "item_cases " it:ident " then " tac:tactic : tactic => `(tactic|
       | connectBlind ok rq rs =>
         cases rq <;> cases rs <;> cases ok <;>
           (simp [handleItem, handleBlind, pre, stAfter, rqErr, rqSkip, rsErr, countP, Item.rq, Item.rs, Item.hij,
+            isRead, isReqmod, isResmod, isUpstream, isWrite, isWarnReq, isWarnRes, isWarnRt, isHijacked, *] <;> $tac)
+      | connectMitmFail rq rs =>
+        cases rq <;> cases rs <;>
+          (simp [handleItem, handleMitmFail, pre, stAfter, rqErr, rqSkip, rsErr, countP, Item.rq, Item.rs, Item.hij,
             isRead, isReqmod, isResmod, isUpstream, isWrite, isWarnReq, isWarnRes, isWarnRt, isHijacked, *] <;> $tac))
 
 macro "item_cases " it:ident : tactic => `(tactic| item_cases $it then skip)
@@ -358,6 +362,7 @@ theorem unlinks_count (sd : Bool) (base : Nat) (s : St) (i : Nat) (opn : List Na
           | connectMitm t rq rs => simp [keepsLinked, hn] at hk
           | x _ _ _ _ => rfl
           | connectBlind _ _ _ => rfl
+          | connectMitmFail _ _ => rfl
         rw [this]; simp; omega
     | close =>
       have hk := not_again_not_keeps sd s i (base + i) it (by intro s' h; rw [hn] at h; cases h)
